@@ -87,13 +87,13 @@ func (f *faultSigner) Sign(_ io.Reader, _ []byte) ([]byte, error) {
 // ---- operations on one Evidence ----
 
 type evOp struct {
-	Kind   string // setclaims sign vsign unmarshal verify
-	D      *ClaimsDesc
-	Key    int
-	Alg    cose.Algorithm
-	Mode   string // good failing emptysig
-	Bytes  []byte
-	sig    []byte // filled in after execution (oracle reply for the model)
+	Kind  string // setclaims sign vsign unmarshal verify
+	D     *ClaimsDesc
+	Key   int
+	Alg   cose.Algorithm
+	Mode  string // good failing emptysig
+	Bytes []byte
+	sig   []byte // filled in after execution (oracle reply for the model)
 }
 
 func (o *evOp) proto() string {
